@@ -126,6 +126,13 @@ func (s *Service) Handshake(ctx context.Context, stream p2p.Stream, peerMultiadd
 	if err := r.ReadMsgWithContext(ctx, &resp); err != nil {
 		return nil, fmt.Errorf("read synack message: %w", err)
 	}
+	// both parts are optional on the wire: a peer may leave them out
+	if resp.Syn == nil {
+		return nil, ErrInvalidSyn
+	}
+	if resp.Ack == nil || resp.Ack.Address == nil {
+		return nil, ErrInvalidAck
+	}
 
 	observedUnderlay, err := ma.NewMultiaddrBytes(resp.Syn.ObservedUnderlay)
 	if err != nil {
@@ -267,6 +274,11 @@ func (s *Service) Handle(ctx context.Context, stream p2p.Stream, remoteMultiaddr
 		return nil, fmt.Errorf("read ack message: %w", err)
 	}
 	s.metrics.AckRx.Inc()
+
+	// the address record is optional on the wire: a peer may leave it out
+	if ack.Address == nil {
+		return nil, ErrInvalidAck
+	}
 
 	if ack.NetworkID != s.networkID {
 		return nil, ErrNetworkIDIncompatible
